@@ -1,5 +1,7 @@
 import IrVerif.Drive.Util
 import IrVerif.Drive.Clone
+import IrVerif.Drive.Clone4
+import IrVerif.Drive.CloneMeta
 import IrVerif.Drive.Kernel
 import IrVerif.Drive.Names
 import IrVerif.Drive.Pack
@@ -20,6 +22,8 @@ import IrVerif.Drive.Serde
 import IrVerif.Drive.SerdeScalar
 import IrVerif.Drive.Scope
 import IrVerif.Drive.ScopeMeta
+import IrVerif.Drive.ScopeExt9
+import IrVerif.Drive.ScopeAttr
 import IrVerif.Drive.ScopeSerdeBridge
 import IrVerif.Drive.SymExpr
 import IrVerif.Drive.SymExprSympy
@@ -34,10 +38,14 @@ def handlers : List Handler := [
   IrVerif.Drive.SymExprSympy.handle,
   IrVerif.Drive.Scope.handle,
   IrVerif.Drive.ScopeMeta.handle,
+  IrVerif.Drive.ScopeExt9.handle,
+  IrVerif.Drive.ScopeAttr.handle,
   IrVerif.Drive.ScopeSerdeBridge.handle,
   IrVerif.Drive.Serde.handle,
   IrVerif.Drive.SerdeScalar.handle,
+  IrVerif.Drive.Clone4.handle,
   IrVerif.Drive.Clone.handle,
+  IrVerif.Drive.CloneMeta.handle,
   IrVerif.Drive.Kernel.handle,
   IrVerif.Drive.Names.handle,
   IrVerif.Drive.Pack.handle,
